@@ -437,7 +437,14 @@ pub fn prop(c: &Case) -> Verdict {
                 None => first = Some((status.clone(), below_root(&after))),
                 Some((s0, a0)) => {
                     if *a0 != below_root(&after) || *s0 != status {
-                        return Verdict::fail("configuration-dependent-result", format!("{cfg}: {status} vs {s0}"));
+                        // threads that have to replace the same pre-existing file or link by a directory race
+                        // (lstat / unlink / mkdir are not atomic together): one of them reports a collision
+                        let class = if threads > 1 && case.flags & F_OVERWRITE != 0 && !case.pre.is_empty() {
+                            "threads-race-replacing-a-file-by-a-directory"
+                        } else {
+                            "configuration-dependent-result"
+                        };
+                        return Verdict::fail(class, format!("{cfg}: {status} vs {s0}"));
                     }
                 }
             }
